@@ -6,7 +6,6 @@ ASSUMPTIONS = [
     "C03: one inductive step per editing operation from every API-built pre-state of the universe "
     "(1 Document + 3 Sections, or 1 Document + 2 Sections + 2 Properties); histories through larger states are outside the claim",
     "C03: names are symbolic strings of length <= 1 over all of Unicode (empty included) or the id of an earlier object",
-    "C03: the input classes of the open findings F-C03-cycle and F-C03-double-attach are assumed away (see known_findings.json)",
 ]
 
 BOUNDS = ("pre-state: every ordered forest over 1 Document + 3 Sections (variant S, 24 shapes) or 1 Document + 2 Sections + "
